@@ -1,5 +1,6 @@
 import MW.Treasury.Model
 import MW.Proto.Msgs
+import MW.Staking.Interface
 /-!
 # C13 — Treasury: trader-only swaps on allow-listed routes; admin-only spending
 -/
@@ -154,5 +155,16 @@ example :
     let cfg : TConfig := { trader := "t", routes := [[r1, r2]] }
     routeAllowed cfg [r1, r2] = true ∧ routeAllowed cfg [r1] = false ∧ routeAllowed cfg [r2, r1] = false
       ∧ routeAllowed cfg [] = false := by decide
+
+/-- the treasury's `ExecuteMsg`, `InstantiateMsg`, `SwapRoute` and entry points as the source declares them (tables
+regenerated from /repo on every run) are exactly what the model covers; `TExec` has one constructor per variant -/
+theorem treasury_interface_is_modelled :
+    MW.Generated.Interface.treasury_execute = MW.Interface.model_treasury_execute
+    ∧ MW.Interface.names MW.Generated.Interface.treasury_execute = MW.Interface.texecSamples.map MW.Interface.texecTag
+    ∧ (∀ m : MW.Treasury.TExec, MW.Interface.texecTag m ∈ MW.Interface.names MW.Generated.Interface.treasury_execute)
+    ∧ MW.Generated.Interface.treasury_entry_points = ["execute", "instantiate", "migrate", "query"]
+    ∧ MW.Generated.Interface.treasury_SwapRoute = MW.Interface.model_treasury_SwapRoute :=
+  ⟨MW.Interface.treasury_execute_eq, MW.Interface.treasury_execute_covered.1, MW.Interface.treasury_execute_covered.2,
+   MW.Interface.treasury_entry_points_eq, MW.Interface.treasury_rest_eq.2.2.2⟩
 
 end MW.Props.C13
